@@ -19,7 +19,7 @@ CLAIMS = {
         "technique": "must/may forward dataflow over clang CFG (validate-before-emit), switch coverage, table-vs-database agreement",
     },
     "C03": {
-        "text": "Decides bookkeeping/ordering clauses: label ids validated on the taken edge before label entries are dereferenced; the unresolved counter is written only in its inverse-pair forms and subtracted on every exit that ran the fixup iterator; one iterator advance per iteration and release only after a successful patch; survivor splice; OffsetFormat literals satisfy the encoder's preconditions; pc-relative addends account for trailing immediates and use the writer cursor; a label relocation takes offset and section from the same label entry; the displacement codec never narrows a 64-bit displacement without a range or round-trip test.; a reference from another section takes its target section from the label; a fixup list is attached to a label entry only on the edge where it is not bound; bind_label resolves fix-ups against the bound section; a label distance reaches a narrower field only under a dominating range predicate; a64: a memory operand's base id becomes a label id only under has_base_label(); (in-place modulo-2^32 narrowing of label arithmetic is refused, is_32bit() counts as a range guard); a full-width mask of a signed 64-bit displacement is a narrowing Does not decide displacement values.",
+        "text": "Decides bookkeeping/ordering clauses: label ids validated on the taken edge before label entries are dereferenced; the unresolved counter is written only in its inverse-pair forms and subtracted on every exit that ran the fixup iterator; one iterator advance per iteration and release only after a successful patch; survivor splice; OffsetFormat literals satisfy the encoder's preconditions; pc-relative addends account for trailing immediates and use the writer cursor; a label relocation takes offset and section from the same label entry; the displacement codec never narrows a 64-bit displacement without a range or round-trip test.; a reference from another section takes its target section from the label; a fixup list is attached to a label entry only on the edge where it is not bound; bind_label resolves fix-ups against the bound section; a label distance reaches a narrower field only under a dominating range predicate; a64: a memory operand's base id becomes a label id only under has_base_label(); (in-place modulo-2^32 narrowing of label arithmetic is refused, is_32bit() counts as a range guard); a full-width mask of a signed 64-bit displacement is a narrowing; every caller of write_offset() reports a refused displacement Does not decide displacement values.",
         "design_ref": "DESIGN.md section 3 / C03",
         "note": _TB,
         "technique": "dominance / must-pass-through dataflow on CFG, inverse-pair structural rule, constant-argument checks",
@@ -34,13 +34,13 @@ CLAIMS = {
         "text": "Decides: the per-convention records built by init_call_conv (argument register order, preserved masks, "
                 "stack alignment, red/spill zones, flags) equal the platform ABI oracle, and the 64-bit aliasing of conventions; AArch64 stack "
                 "arguments are aligned exactly when their size reaches the alignment; the x86 argument mover sign-extends exactly the signed "
-                "narrower-source pairs. Does not decide argument classification as a whole or the parallel-move solver.",
+                "narrower-source pairs.; a computed stack alignment is computed from the argument's size and a vector branch never aligns to a constant below 16; x86 stack slots are at least register sized, advance only for stack-passed arguments and are aligned for vectors; a convention's own register order is not replaced by a shared block; RegUtils::signature_of_vec_by_size folds to the vector type of the size; subscripts of the register orders are bounded; an exchange is as wide as the wider variable; float/double argument conversions have the direction the branch condition states Does not decide argument classification as a whole or the parallel-move solver.",
         "design_ref": "DESIGN.md section 3 / C06",
         "note": _TB,
         "technique": "AST extraction of constant setter arguments per (arch branch, convention case) compared with an ABI oracle table",
     },
     "C08": {
-        "text": "Decides capture/replay coverage: every node-creating Builder override is replayed by serialize_to and every node kind dispatched; options/extra register/comment are restored from the node before _emit, operands passed positionally and operands 3..5 refreshed per node; _emit stores everything in the node; the five list-editing functions agree on links, list ends, cursor and dirty flag. The arguments of embed_label / embed_label_delta round-trip positionally through node constructor, field and accessor; the cursor is tested once per removed node on every path; element sizes are computed from the de-abstracted type id in Builder and Assembler alike. The section chain is terminated after re-linking; x86/a64 Compiler/Builder finalize forward the same emitter configuration; a node taken from a label/section/const-pool registry is linked only when known inactive or one-shot. A function that binds its label does so before every successful return; the one-shot state is not read after _grab_state(); serialize_to masks op[0..2] by op_count and takes op_ext from a per-node scratch array; Builder interface functions fail with error codes the Assembler's versions also use. Does not decide byte identity.",
+        "text": "Decides capture/replay coverage: every node-creating Builder override is replayed by serialize_to and every node kind dispatched; options/extra register/comment are restored from the node before _emit, operands passed positionally and operands 3..5 refreshed per node; _emit stores everything in the node; the five list-editing functions agree on links, list ends, cursor and dirty flag. The arguments of embed_label / embed_label_delta round-trip positionally through node constructor, field and accessor; the cursor is tested once per removed node on every path; element sizes are computed from the de-abstracted type id in Builder and Assembler alike. The section chain is terminated after re-linking; x86/a64 Compiler/Builder finalize forward the same emitter configuration; a node taken from a label/section/const-pool registry is linked only when known inactive or one-shot. A function that binds its label does so before every successful return; the one-shot state is not read after _grab_state(); serialize_to masks op[0..2] by op_count and takes op_ext from a per-node scratch array; Builder interface functions fail with error codes the Assembler's versions also use.; a resolved abstract type id is the one stored in the node Does not decide byte identity.",
         "design_ref": "DESIGN.md section 3 / C08",
         "note": _TB,
         "technique": "call-graph coverage, argument provenance tracing, structural pairing of link assignments",
@@ -48,14 +48,14 @@ CLAIMS = {
     "C09": {
         "text": "Decides accounting/guard/flag clauses C09.a-e: statistics updates come in inverse pairs, release/shrink/query agree on the guards "
                 "applied to a looked-up address, is_initialized distinguishes the null implementation, empty-block policy writes, roll-back in "
-                "new_block, every site that sets the empty flag rebuilds the same free-space cache fields, area/byte conversions use the pool's granularity., a block that is re-inserted into the tree has its links cleared, the emptiness test follows every path that lowers the used area, the secure fill walks the used ranges, release/shrink accept only the start of a span, query included; bound tests do not add two caller-controlled sizes before bounding each; the block-size computation counts the initial padding on every path; an internal shrink is never asked for size 0; release/shrink widen both ends of the block's search window Does not decide disjointness/alignment over histories.",
+                "new_block, every site that sets the empty flag rebuilds the same free-space cache fields, area/byte conversions use the pool's granularity., a block that is re-inserted into the tree has its links cleared, the emptiness test follows every path that lowers the used area, the secure fill walks the used ranges, release/shrink accept only the start of a span, query included; bound tests do not add two caller-controlled sizes before bounding each; the block-size computation counts the initial padding on every path; an internal shrink is never asked for size 0; release/shrink widen both ends of the block's search window (sums of unbounded locals included) Does not decide disjointness/alignment over histories.",
         "design_ref": "DESIGN.md section 3 / C09",
         "note": _TB,
         "technique": "inverse-pair and sibling-guard structural rules, constant evaluation, acquire/release pairing on CFG",
     },
     "C10": {
         "text": "Decides clauses C10.a-c: every write into the caller's buffer is bounded by dst_size, sections are inserted at a lower_bound over "
-                "(order, id), flatten's overflow exits precede any offset assignment. Layout walks iterate the layout order; Section::real_size() folds to max(virtual, buffer) on a value grid. flatten advances by the real size; the address table's written slots are covered by its buffer size on every successful path of relocate_to_base. Does not decide layout arithmetic.",
+                "(order, id), flatten's overflow exits precede any offset assignment. Layout walks iterate the layout order; Section::real_size() folds to max(virtual, buffer) on a value grid. flatten advances by the real size; the address table's written slots are covered by its buffer size on every successful path of relocate_to_base. flatten() calls set_offset() on every path of an iteration and gives alignment padding only to non-empty sections; bound tests do not add two unbounded sizes Does not decide layout arithmetic.",
         "design_ref": "DESIGN.md section 3 / C10",
         "note": _TB,
         "technique": "dominance of bounds tests over memcpy/memset sinks, structural comparator match, CFG reachability",
@@ -63,13 +63,13 @@ CLAIMS = {
     "C11": {
         "text": "Decides C11.a-c: every access to shared-mutable allocator state happens under LockGuard(impl->lock) (lock-held dataflow with "
                 "caller closure), the set of writable globals of the whole library equals the reviewed allow-list (LLVM IR audit), const tables are "
-                "never written through const_cast. Does not decide races inside one-shot initialisers.",
+                "never written through const_cast. Every overload of a thread-safe entry point is analysed. Does not decide races inside one-shot initialisers.",
         "design_ref": "DESIGN.md section 3 / C11",
         "note": _TB + " Lock/LockGuard and OS primitives are trusted.",
         "technique": "lock-held must-analysis over CFG + call graph; LLVM IR writable-global audit; const_cast lint",
     },
     "C12": {
-        "text": "Decides table/database agreement: RW/flag/feature/rm tables regenerate byte-identically from db/; AArch64 mnemonics with register-run forms carry the consecutive flag (known finding: tbl/tbx); x86 forms with relative register operands report the run's lead count and follower flags; every operand the x86 rm table flags as replaceable by memory has, for each all-register database form, a memory form of the prescribed size (1162 operand obligations; 31 known findings because the information is kept per instruction id); in x86 query_rw_info every success exit of an AVX-512 capable category goes through the {k}/merge-masking step; multi-argument bit masks are built from one enum type. Does not decide what the CPU reads, writes or requires.",
+        "text": "Decides table/database agreement: RW/flag/feature/rm tables regenerate byte-identically from db/; AArch64 mnemonics with register-run forms carry the consecutive flag (known finding: tbl/tbx); x86 forms with relative register operands report the run's lead count and follower flags; every operand the x86 rm table flags as replaceable by memory has, for each all-register database form, a memory form of the prescribed size (1162 operand obligations; 31 known findings because the information is kept per instruction id); in x86 query_rw_info every success exit of an AVX-512 capable category goes through the {k}/merge-masking step; multi-argument bit masks are built from one enum type.; byte masks agree with the access kind and size of the operand they are set on; {sae} is treated like {er}; the PEXTRW exemption of the reg/mem agreement is derived from query_rw_info; the EVEX / AVX2 decisions of query_features, folded over every operand shape of the database's VEX and EVEX forms, equal what only the newer encoding can express Does not decide what the CPU reads, writes or requires.",
         "design_ref": "DESIGN.md section 3 / C12",
         "note": _TB + " db/*.js readers and tools/tablegen*.js are run under node as the repository's own generator.",
         "technique": "generated-table regeneration diff; table-vs-database agreement",
@@ -77,7 +77,7 @@ CLAIMS = {
     "C13": {
         "text": "Decides clauses C13.a-c: signature/name tables regenerate identically, the packed name index satisfies the binary-search "
                 "preconditions for every id (exhaustive), the validation hook precedes any buffer commit and its failure reaches the error exit; the a64 name scan decodes every id; the x86 validator "
-                "adds the vm flags that match the index register type.; AArch64 vector arrangements accepted per row exist in the database and the database's arrangement lists agree with the Q bit of their opcode; the x86 validator rejects {z} with a memory destination; FP and exact-signature shapes as in C02; each x86 emitter selects the validator by mode inside on_attach; the validator gives a vector-index operand no plain memory flag, compares implicit registers for every operand class that has them, and its per-mode base/index register sets equal the architecture; the validator reads every EVEX-capability flag the register allocator branches on where kInvalidPhysId is still reachable Does not decide per-form acceptance agreement.",
+                "adds the vm flags that match the index register type.; AArch64 vector arrangements accepted per row exist in the database and the database's arrangement lists agree with the Q bit of their opcode; the x86 validator rejects {z} with a memory destination; FP and exact-signature shapes as in C02; each x86 emitter selects the validator by mode inside on_attach; the validator gives a vector-index operand no plain memory flag, compares implicit registers for every operand class that has them, and its per-mode base/index register sets equal the architecture; the validator reads every EVEX-capability flag the register allocator branches on where kInvalidPhysId is still reachable; a decision made from {er} alone is dominated by one that looks at {sae} too Does not decide per-form acceptance agreement.",
         "design_ref": "DESIGN.md section 3 / C13",
         "note": _TB,
         "technique": "regeneration diff, exhaustive decode of dumped name tables, CFG dominance",
@@ -102,7 +102,7 @@ CLAIMS = {
     },
     "C17": {
         "text": "Decides structural clauses C17.a-d: every success exit of the offset encoders is range-guarded, stores only OR in masked fields, "
-                "OffsetType/value-size dispatch is complete, ADR/ADRP split positions equal the database fields, no 64-bit displacement is narrowed without a dominating range predicate or a round-trip comparison, discarded low bits are tested to be zero before every shift by imm_discard_lsb() (codec and AArch64 direct path). Does not decide exactness per value.",
+                "OffsetType/value-size dispatch is complete, ADR/ADRP split positions equal the database fields, no 64-bit displacement is narrowed without a dominating range predicate or a round-trip comparison, discarded low bits are tested to be zero before every shift by imm_discard_lsb() (codec and AArch64 direct path).; every caller of write_offset() reports a refusal; the 32-bit move-wide sequence never uses MOVN with sf Does not decide exactness per value.",
         "design_ref": "DESIGN.md section 3 / C17",
         "note": _TB,
         "technique": "dominance on CFG, expression-shape rule, switch coverage, database field agreement",
@@ -120,7 +120,7 @@ CLAIMS = {
     },
     "C20": {
         "text": "Decides name-table clauses C20.a-c: enumerator-to-text maps equal the enumerator names, x86 register name tables equal the architectural "
-                "names for every (type, id) (exhaustive), the machine-code column is fed from the writer's buffer range and its hex runs tile the instruction bytes (linear forms), a register is printed with its own type (base/index pairing). Does not decide operand rendering per value.",
+                "names for every (type, id) (exhaustive), the machine-code column is fed from the writer's buffer range and its hex runs tile the instruction bytes (linear forms), a register is printed with its own type (base/index pairing).; (v)snprintf results are bounded before they index or size the buffer; no transcript line is logged before the last step that can refuse the call; a resolved abstract type id is the one that is formatted; x86 size keywords are returned for exactly their size; wzr/wsp/xzr/sp are appended only under the case label of their width Does not decide operand rendering per value.",
         "design_ref": "DESIGN.md section 3 / C20",
         "note": _TB,
         "technique": "constant-evaluated table dump vs oracle; argument provenance",
